@@ -49,6 +49,11 @@ type Sched struct {
 	adj       []string // (task:point>next) of every switch; a slice, because map operations are always race-instrumented
 	lastPoint string
 	SimTime   time.Duration
+	// Quantum is the simulated time every scheduling decision takes: with a
+	// non-zero quantum the clock also advances while tasks are busy, so that a
+	// sleeping task (the background pruner's poll) wakes up in the middle of the
+	// others' work and not only when everybody else is idle.
+	Quantum time.Duration
 }
 
 type taskState int
@@ -332,6 +337,10 @@ func (s *Sched) Adjacency() map[string]int {
 func (s *Sched) dispatch(from *task, point string) {
 	s.lock()
 	s.yields++
+	if s.Quantum > 0 {
+		s.now += s.Quantum
+		s.SimTime += s.Quantum
+	}
 	if from != nil {
 		from.point = point
 	}
